@@ -183,7 +183,20 @@ func c12Finish(p *an.Prog, r *an.R) {
 	// retire sites: Remove/SetTombstone reachable after a rename (the early
 	// cleanup of temp files under buildError != nil precedes the renames)
 	n := 0
-	for _, l := range g.Locs(func(nd ast.Node) bool { return len(an.CallsTo(info, nd, false, remove, setTomb)) > 0 }) {
+	// functions of the package, called from Finish, that remove or tombstone shards are retire sites too
+	retirers := []*types.Func{remove, setTomb}
+	for _, xd := range calleeDecls(p, d) {
+		if xd == d {
+			continue
+		}
+		xi := xd.Pkg.TypesInfo
+		if len(an.CallsTo(xi, xd.Decl.Body, false, remove, setTomb)) > 0 && len(an.CallsTo(xi, xd.Decl.Body, false, rename)) == 0 {
+			if hf, ok := xi.Defs[xd.Decl.Name].(*types.Func); ok {
+				retirers = append(retirers, hf)
+			}
+		}
+	}
+	for _, l := range g.Locs(func(nd ast.Node) bool { return len(an.CallsTo(info, nd, false, retirers...)) > 0 }) {
 		afterRename := false
 		for _, rn := range renames {
 			if g.Reach(rn, true, &an.Search{Target: func(k an.Loc) bool { return k == l }}) {
@@ -201,6 +214,11 @@ func c12Finish(p *an.Prog, r *an.R) {
 		what := "os.Remove"
 		if len(an.CallsTo(info, g.Node(l), false, setTomb)) > 0 {
 			what = "SetTombstone"
+		}
+		if len(retirers) > 2 {
+			if cs := an.CallsTo(info, g.Node(l), false, retirers[2:]...); len(cs) > 0 {
+				what = an.Callee(info, cs[0]).Name()
+			}
 		}
 		// (a) every path entry -> l passes a rename
 		skips := g.Reach(g.Entry(), false, &an.Search{Target: func(k an.Loc) bool { return k == l }, Cut: isRename})
@@ -220,7 +238,7 @@ func c12Finish(p *an.Prog, r *an.R) {
 			"old shards are retired only where buildError was tested nil after the renames",
 			"an old shard is retired ("+what+") although a rename of a new shard may have failed (buildError is not tested between the rename loop and the removal): the repository loses shards that were never replaced")
 	}
-	r.Floor("C12.R3.retire-sites", 2, n)
+	r.Floor("C12.R3.retire-sites", 1, n)
 	// every return reachable from a rename returns b.buildError
 	for _, l := range g.Locs(func(nd ast.Node) bool { _, ok := nd.(*ast.ReturnStmt); return ok }) {
 		reach := false
